@@ -120,6 +120,7 @@ class FuncGen(ExprGen):
         if h == "list":
             e = a[0]
             ops = [("setitem", f"{v}[{self.expr('int', 1)}] = {self.expr(e, 2)}"),
+                   ("setitem.i64idx", f"{v}[{self.expr('i64', 1)}] = {self.expr(e, 1)}"),
                    ("pop", f"{v}.pop()"), ("clear", f"{v}.clear()") if rng.random() < 0.2 else ("reverse", f"{v}.reverse()"),
                    ("reverse", f"{v}.reverse()"), ("delitem", f"del {v}[{self.expr('int', 1)}]"),
                    ("remove", f"{v}.remove({self.expr(e, 1)})"), ("setslice", f"{v}[{self.expr('int', 0)}:{self.expr('int', 0)}] = {self.expr(t, 1)}")]
